@@ -2,14 +2,14 @@
    file is compiled by harness/translators/test_rust_tables.sh to make sure the lines are right).
 
    Additional imports for props/C01.v:
-     From Coq Require Import String.
+     (none from Coq)
      From HV Require Import gen.RustTables proofs.RustTablesP proofs.RustSigP.
 
    coq/model/Validity.v (the executable validity predicate `valid`) is a hand transcription of the Rust reference
    validator.  The theorems below tie its TABLES to constants regenerated on every run from the Rust source text
    (gen/RustTables.v, harness/translators/rust_tables.py, fail closed).  `vrow o` is the row of the regenerated tables
    for the OpType variant the operation `o` of Validity.v stands for (`rnames`, proofs/RustTablesP.v). *)
-From Coq Require Import NArith List Bool String.
+From Coq Require Import NArith List Bool.
 Import ListNotations.
 From HV Require Import lib.Harness model.Validity gen.RustTables proofs.RustTablesP proofs.RustSigP.
 
@@ -98,10 +98,10 @@ Print Assumptions C01_validity_tables_match_rust_inputs.
 (* The rows of df_sig / inner_sig are the rows `fn signature` / `fn inner_signature` build from the struct fields; a type
    built by Type::new_sum / Type::new_function is the id rule 4 checks against the table. *)
 Theorem C01_validity_tables_match_rust_signatures : forall tys o k, derived_ok tys o = true -> In k (rnames o) ->
-  sig_agrees tys o [] (lookup k rs_signature) (df_sig o) = true.
+  sig_agrees tys o [] (slookup k rs_signature) (df_sig o) = true.
 Proof. exact df_sig_matches. Qed.
 Print Assumptions C01_validity_tables_match_rust_signatures.
 Theorem C01_validity_tables_match_rust_inner_signatures : forall tys o k, derived_ok tys o = true -> In k (rnames o) ->
-  sig_agrees tys o [] (lookup k rs_inner_signature) (inner_sig o) = true.
+  sig_agrees tys o [] (slookup k rs_inner_signature) (inner_sig o) = true.
 Proof. exact inner_sig_matches. Qed.
 Print Assumptions C01_validity_tables_match_rust_inner_signatures.
